@@ -27,6 +27,7 @@ THEOREMS = [
     "C08.frame_all_flags_step", "C08.frame_all_flags", "C08.frame_all_flags_mem",
     "C08.replace_frame_all_flags_step", "C08.replace_frame_all_flags_mem",
     "C08.resolveFrom_objs", "C08.nothing_invented_step", "C08.nothing_invented", "C08.nothing_invented_call",
+    "C08.replace_nothing_invented_step", "C08.replace_nothing_invented",
 ]
 PROOF_IMPORTS = ["BigtreeProofs.Properties.C08"]
 FLAGS = ["skippable", "overriding", "merge_children", "merge_leaves", "delete_children", "with_full_path"]
@@ -1031,7 +1032,7 @@ LEVEL_TEXT = ("Proof. Lean 4 theorems (C08.*) about a hand-written executable mo
               "siblings in between); (4) nothing_invented(_step, _call) - for every flag combination and ANY pair list: every node of "
               "the resulting tree is an object (identity, attributes) that was in the destination tree before, or - shift only - "
               "in the tree the from-nodes were looked up in, or a new object whose identity was drawn from the fresh-id counter "
-              "during the call: no attribute of an existing node changes, a copy consists of new objects only. "
+              "during the call: no attribute of an existing node changes, a copy consists of new objects only (replace_nothing_invented: the same for replace_logic). "
               "Partial in this sense: each single-pair theorem fixes one kind of edit (the other merge/override flags off; merge and "
               "override theorems are for shift onto an existing destination whose subtree is disjoint from the from-subtree; "
               "replace for delete_children=False); the combinations not covered by a theorem (e.g. copy+merge, merge onto a missing "
